@@ -99,3 +99,23 @@ Print Assumptions RJ.C19_json_summary_line_is_code.
 Print Assumptions RJ.C19_json_summary_is_code.
 Print Assumptions RJ.C19_json_summary_counts.
 Print Assumptions RJ.C19_json_http_summary_bodies.
+
+
+(* tie to the source, the ACCUMULATOR (the part tools/gen_render.py leaves to the model): StepToV2SummaryVisitor (which
+   step kinds answer with a LineSummary), LineSummary's constructors (first count, what a copy keeps) and the statement
+   tree of SummaryResultAccumulator::processSingleCalculationResult (look the line up by its uuid; absent: emplace; present:
+   count++) are read AS THEY ARE NOW by tools/gen_scenario.py (gen/Scenario.v) and run by the interpreter of ScenCode.v over
+   a key-ordered map: one fresh accumulator fed with every route in order computes Render.summary_lines *)
+Require TrV.ScenCode TrV.gen.Scenario.
+From TrV Require Proofs.SummaryTie.
+Module SCN.
+  Import TrV.ScenCode TrV.Proofs.SummaryTie.
+  Theorem C19_summary_accumulator_is_code : forall d rs,
+    run_summary gen_summary_code d rs = Some (summary_lines d rs).
+  Proof. exact summary_accumulator_is_code. Qed.
+  Print Assumptions C19_summary_accumulator_is_code.
+  Theorem C19_summary_answer_is_code : forall d a n ls,
+    summary_of d a = Some (n, ls) -> run_summary gen_summary_code d (routes_of a) = Some ls.
+  Proof. exact summary_of_is_code. Qed.
+  Print Assumptions C19_summary_answer_is_code.
+End SCN.
